@@ -51,23 +51,47 @@ def structure_case(ctx):
     return out, {'nx': nx, 'nu': nu, 'default_supply': Xi is None}
 
 
-def oracle_fit(ctx):
+def active_data(rng, gain):
+    """two-state, one-input plant whose l2 gain is `gain` (well above the bounds requested below): the constraint is active"""
+    from .c10 import hinf_norm
+    from .. import structural as st
+    rs = np.random.RandomState(rng.randint(0, 2 ** 31 - 1))
+    A = np.array([[0.8, 0.1], [-0.15, 0.7]])
+    B = np.array([[0.0], [1.0]])
+    B = B * gain / hinf_norm(A, B, np.eye(2), np.zeros((2, 1)), 1500)
+    n = 60
+    x = np.zeros((n, 2)); u = rs.uniform(-1, 1, (n, 1))
+    for k in range(n - 1):
+        x[k + 1] = A @ x[k] + B @ u[k] + 0.01 * rs.randn(2)
+    return st.ref_combine([(0, np.hstack((x, u)))], True), {'n_inputs': 1, 'episode_feature': True}
+
+
+def oracle_fit(ctx, forced=None):
     """fits with gain-bound supply rates for which P = I is a workable start; the dissipation inequality is checked
     along random trajectories with the returned (coef_, P_)"""
     rng = ctx.rng
     nx, nu = rng.randint(1, 3), rng.randint(1, 2)
     X, kw, _, _ = lc.lin_data(rng, nx, nu, radius=rng.choice([0.5, 0.8]), noise=0.02)
     g = rng.choice([1.5, 2.0, 4.0])
+    if forced is not None:
+        nx, nu, g = 2, 1, forced[0]
+        X, kw = active_data(rng, forced[1])
     Xi = gain_supply(nx, nu, g)
-    mixed = rng.random() < 0.5
+    mixed = rng.random() < 0.5 and forced is None
     if mixed:       # a mixed (conic-sector like) supply rate: non-zero off-diagonal block
         S = np.array([[rng.choice([0.3, -0.2, 0.1]) for _ in range(nu)] for _ in range(nx)])
         Xi[:nx, nx:] = S
         Xi[nx:, :nx] = S.T
     reg = lmi.LmiEdmdDissipativityConstr(alpha=rng.choice([0, 0.1]), supply_rate=Xi, max_iter=rng.choice([1, 2, 4]),
                                          solver_params=dict(lc.SOLVER))
-    case = {'nx': nx, 'nu': nu, 'gain': g, 'mixed': mixed, 'Xi': Xi.tolist(), 'X': X.tolist()}
+    refit = rng.random() < 0.35 or forced is not None
+    case = {'nx': nx, 'nu': nu, 'gain': g, 'mixed': mixed, 'Xi': Xi.tolist(), 'X': X.tolist(), 'refit': refit}
     try:
+        if refit:
+            # the estimator was used before with a much looser supply rate; the requested one is set afterwards
+            reg.set_params(supply_rate=gain_supply(nx, nu, 4 * g if forced is None else forced[2]))
+            reg.fit(X, **kw)
+            reg.set_params(supply_rate=Xi)
         reg.fit(X, **kw)
     except Exception as ex:
         return None, case, 'fit did not complete'
@@ -166,9 +190,11 @@ def run(ctx):
         wantU = np.zeros_like(script.a[0][1]) if ui < 0 else script.a[ui][1]
         if not np.array_equal(reg.coef_.T, wantU):
             ctx.mismatch('returned U', case, reg.coef_.T.tolist(), [ui])
+    sweeps = [(1.1, 5.0, 8.0), (1.5, 4.0, 6.0)]       # (requested gain bound, plant gain, bound of the earlier fit)
+
     def fits(n, stop_at_first=False):
-        for i in range(n):
-            why, case, note = oracle_fit(ctx)
+        for i in range(n + len(sweeps)):
+            why, case, note = oracle_fit(ctx, forced=sweeps[i] if i < len(sweeps) else None)
             ctx.count('fit' if not (note or '').startswith('zero') else 'fit:zero-model')
             if why:
                 ctx.fail(why, case, {'estimator': 'LmiEdmdDissipativityConstr', 'supply_rate': 'gain'})
